@@ -155,10 +155,27 @@ def run_damage(kind, damages, seed=0, tid=1):
                 con.commit()
                 con.close()
         ob = Observer(root)
-        obj = diskcache.FanoutCache(top, shards=2) if kind == 'fanout' else diskcache.Cache(top)
+        obj = diskcache.FanoutCache(top, shards=2) if kind == 'fanout' else diskcache.Cache(top, timeout=0.01)
         shard = obj._shards[1] if kind == 'fanout' else obj
         disk = shard.disk
         obs0 = ob.observe(disk)
+        # another client holds the write lock of the (damaged) database for a moment: a check that returns must be complete
+        busy, raised0, warn0 = (1 if rng.random() < 0.5 else 0), 0, []
+        if busy:
+            holder = sqlite3.connect(os.path.join(root, 'cache.db'), timeout=0, isolation_level=None)
+            holder.execute('BEGIN IMMEDIATE')
+            try:
+                with warnings.catch_warnings(record=True):
+                    warnings.simplefilter('always')
+                    r0 = obj.check()
+                if kind == 'fanout':
+                    r0 = [w for w in r0 if root in str(w.message) or 'Settings.' in str(w.message)]
+                warn0 = ob.warn_list(r0)
+            except Exception:
+                raised0 = 1
+            finally:
+                holder.execute('ROLLBACK')
+                holder.close()
         with warnings.catch_warnings(record=True) as w1:
             warnings.simplefilter('always')
             r1 = obj.check()
@@ -172,7 +189,8 @@ def run_damage(kind, damages, seed=0, tid=1):
         r3 = obj.check()
         obj.close()
         return {'id': tid, 'kind': kind, 'damages': damages, 'obs0': obs0, 'obs1': obs1, 'obs2': obs2,
-                'warn1': ob.warn_list(r1), 'warn2': ob.warn_list(r2), 'warn3': ob.warn_list(r3), 'ev': [1]}
+                'warn1': ob.warn_list(r1), 'warn2': ob.warn_list(r2), 'warn3': ob.warn_list(r3), 'ev': [1],
+                'busy': busy, 'raised0': raised0, 'warn0': warn0}
     finally:
         envctl.SeededUrandom.uninstall()
         envctl.rm(top)
